@@ -278,7 +278,7 @@ func structuredCase(t *vlib.T, n int, kind string, k int, sing string, v int, cf
 		}}
 	s2.pinv, s2.kappa = s.pinv, s.kappa
 	cfg2 := cfg
-	cfg2.breps = []string{"dense", "trans"}
+	cfg2.breps = []string{"dense", "trans", "user"}
 	cfg2.vreps = []string{"vec", "uservec"}
 	s2.run(t, cfg2)
 	if maxAbs(subM(fromMat(a), A)) != 0 {
